@@ -272,6 +272,9 @@ def impl_hist(case):
             rig.gw.add_sensor(n)
             for c in cs:
                 rig.gw.sensors[n].add_child_sensor(c, 6, "present before connect")
+    # a second MQTT gateway of the same version with other prefixes, created later in the same process and never
+    # used: the first one's subscriptions and publishes must not go through it
+    decoy = Rig(case["flavour"], "decoy-" + pfx, "decoy-" + pfx, **kw)
     obs["net0"] = rig.net()
     try:
         rig.connect()
@@ -307,6 +310,7 @@ def impl_hist(case):
     obs["net"] = rig.net()
     obs["subs"] = list(rig.subs)
     obs["sub_recv_ok"] = rig.sub_recv_ok
+    obs["decoy"] = [t for t, _ in decoy.subs][:4] + [p[0] for p in decoy.pubs][:4]
     # the client connects a second time (broker came back / the application calls start() again): whatever the
     # first connect subscribed must be asked for again (a broker that lost the session has none of it)
     if obs["escaped"] is None:
@@ -404,6 +408,8 @@ def monitor_hist(case, obs):
     missing = sorted(required_topics(case["pfx"], obs["net"], skip) - have)
     if missing:
         return "subscribe/missing", f"not subscribed: {missing[:4]} (network {obs['net']}, persistence {case['pers']})"
+    if obs.get("decoy"):
+        return "subscribe/through-another-gateway", f"topics {obs['decoy']} went through the callbacks of ANOTHER gateway object of the process"
     if not obs.get("sub_recv_ok", True):
         return "subscribe/callback", "subscribe callback did not receive transport.recv"
     if "init2" in obs:
